@@ -109,16 +109,16 @@ theorem SimL_dictLitIndex (k : String) : ∀ (es es' : List Expr) (i : Nat), Sim
       simp only [Sim] at h1; subst h1
       simp only [dictLitIndex]
       cases c <;> simp only [SimL_dictLitIndex k es rest (i + 1) h2]
-    | name x => simp only [Sim] at h1; subst h1; rfl
-    | lam ps b => simp only [Sim] at h1; subst h1; rfl
-    | attr v a => simp only [Sim] at h1; obtain ⟨_, rfl, _⟩ := h1; rfl
-    | sub v s => simp only [Sim] at h1; obtain ⟨_, _, rfl, _⟩ := h1; rfl
-    | tuple l => simp only [Sim] at h1; obtain ⟨_, rfl, _⟩ := h1; rfl
-    | list l => simp only [Sim] at h1; obtain ⟨_, rfl, _⟩ := h1; rfl
-    | dict l1 l2 => simp only [Sim] at h1; obtain ⟨_, _, rfl, _⟩ := h1; rfl
-    | op k l => simp only [Sim] at h1; obtain ⟨_, rfl, _⟩ := h1; rfl
-    | comp a b c d e f => simp only [Sim] at h1; obtain ⟨_, _, _, _, _, _, rfl⟩ := h1; rfl
-    | call a b c d => simp only [Sim] at h1; obtain ⟨_, _, _, _, rfl⟩ := h1; rfl
+    | name x => simp only [Sim] at h1; subst h1; simp only [dictLitIndex, SimL_dictLitIndex k es rest (i + 1) h2]
+    | lam ps b => simp only [Sim] at h1; subst h1; simp only [dictLitIndex, SimL_dictLitIndex k es rest (i + 1) h2]
+    | attr v a => simp only [Sim] at h1; obtain ⟨_, rfl, _⟩ := h1; simp only [dictLitIndex, SimL_dictLitIndex k es rest (i + 1) h2]
+    | sub v s => simp only [Sim] at h1; obtain ⟨_, _, rfl, _⟩ := h1; simp only [dictLitIndex, SimL_dictLitIndex k es rest (i + 1) h2]
+    | tuple l => simp only [Sim] at h1; obtain ⟨_, rfl, _⟩ := h1; simp only [dictLitIndex, SimL_dictLitIndex k es rest (i + 1) h2]
+    | list l => simp only [Sim] at h1; obtain ⟨_, rfl, _⟩ := h1; simp only [dictLitIndex, SimL_dictLitIndex k es rest (i + 1) h2]
+    | dict l1 l2 => simp only [Sim] at h1; obtain ⟨_, _, rfl, _⟩ := h1; simp only [dictLitIndex, SimL_dictLitIndex k es rest (i + 1) h2]
+    | op ok l => simp only [Sim] at h1; obtain ⟨_, rfl, _⟩ := h1; simp only [dictLitIndex, SimL_dictLitIndex k es rest (i + 1) h2]
+    | comp a b c d e f => simp only [Sim] at h1; obtain ⟨_, _, _, _, _, _, rfl⟩ := h1; simp only [dictLitIndex, SimL_dictLitIndex k es rest (i + 1) h2]
+    | call a b c d => simp only [Sim] at h1; obtain ⟨_, _, _, _, rfl⟩ := h1; simp only [dictLitIndex, SimL_dictLitIndex k es rest (i + 1) h2]
 
 end Fadl
 namespace Fadl
